@@ -95,6 +95,25 @@ func (r *Run) iterProtocol(rel string, floor int) {
 							checkCallsIn(x.Init)
 						}
 						cond := ast.Unparen(x.Cond)
+						// `if A && !yield(x) { return }`: yield is asked only when A holds, and a false
+						// answer stops production — the last conjunct decides
+						for {
+							b, ok := cond.(*ast.BinaryExpr)
+							if !ok || b.Op != token.LAND {
+								break
+							}
+							hasYield := false
+							ast.Inspect(b.X, func(m ast.Node) bool {
+								if c, ok := m.(*ast.CallExpr); ok && prog.IdentObj(info, c.Fun) == yobj {
+									hasYield = true
+								}
+								return true
+							})
+							if hasYield {
+								break
+							}
+							cond = ast.Unparen(b.Y)
+						}
 						if u, ok := cond.(*ast.UnaryExpr); ok && u.Op == token.NOT {
 							if c := isYield(u.X); c != nil {
 								n++
